@@ -6,7 +6,7 @@
       - the host's status filter as a parameter ([host.options.status_code_cache_filter]),
       - the difference between the lookup key (the internal override URI of a Prime extension, if any)
         and the insert key (always the request URI),
-      - [handle_vary_missing] with its admission test (the repaired code; [repaired = false] is the code
+      - [handle_vary_missing] with its admission test (the repaired code; [fix_vary = false] is the code
         before the repair, which pushed every computed variant),
       - per-variant bookkeeping (ghost field [v_stored]) so that "never served more than N seconds after it
         was stored" can be stated for every variant of an entry.
@@ -104,7 +104,10 @@ Section LayerX.
   Variable compute : hstate -> request -> option (bytes * option bytes) -> bool -> fatx * hstate * list bytes.
   Variable cache_on : bool.
   Variable ims_on : bool.                                   (* not disable_if_modified_since *)
-  Variable repaired : bool.                                 (* [handle_vary_missing] applies the admission test *)
+  (** the three repairs made in the repo worktree; [false] = the code before the repair *)
+  Variable fix_vary : bool.                                 (* [handle_vary_missing] applies the admission test *)
+  Variable fix_ovkey : bool.                                (* the insert key is built from the URI that was looked up *)
+  Variable fix_clear : bool.                                (* [clear_page] also clears the default-redirect target *)
   Variable sfilter : N -> bool.                             (* status filter: true = Drop *)
   Variable parse_ims : bytes -> option Z.
   Variable sanitize_ok : request -> bool.
@@ -113,6 +116,14 @@ Section LayerX.
   Variable negotiate : request -> fatx -> option (N * bytes).
   Variable vary_tuple : request -> tuple.
   Variable vary_header : request -> fatx -> list (bytes * bytes).
+  Variable clear_alias : request -> option request.         (* [uri_redirect_target] of a cleared URI *)
+
+  (** the URI that is looked up: the override if there is one *)
+  Definition lookup_req (r : request) (ov : option (bytes * option bytes)) : request :=
+    match ov with
+    | Some (p, q) => mkReq (rq_method r) p q (rq_headers r) (rq_addr r)
+    | None => r
+    end.
 
   (** [clone_preferred] (never for a stream: [compress] is forced to None) + [vary::apply_header].
       [miss_arm]: the miss arm skips the vary header of a stream without length. *)
@@ -141,7 +152,7 @@ Section LayerX.
     let lm := ims_on && wants_cache_x cache_on sfilter (rq_method r) x in
     if may_store_x cache_on sfilter (rq_method r) x then
       let e' := {| ex_vars := [mkVar (vary_tuple r) x now]; ex_created := now; ex_life := lifetime_x x |} in
-      ((xc_insert (insert_key r (fx_fat x)) e' c1, hs'), finishX r x lm false true, lg)
+      ((xc_insert (insert_key (if fix_ovkey then lookup_req r ov else r) (fx_fat x)) e' c1, hs'), finishX r x lm false true, lg)
     else ((c1, hs'), finishX r x lm false true, lg).
 
   (** [handle_vary_missing]: compute; if the new variant is admitted (always, before the repair) push it and
@@ -151,7 +162,7 @@ Section LayerX.
     let '(x, hs', lg) := compute hs r ov ok in
     let rp := finishX r x ims_on true false in
     let remaining := option_map (fun l => l - (now - ex_created e)) (ex_life e) in
-    if repaired then
+    if fix_vary then
       if may_store_x cache_on sfilter (rq_method r) x then
         let e' := {| ex_vars := mkVar (vary_tuple r) x now :: ex_vars e; ex_created := now;
                      ex_life := min_life remaining (lifetime_x x) |} in
@@ -160,13 +171,6 @@ Section LayerX.
     else
       let e' := {| ex_vars := mkVar (vary_tuple r) x now :: ex_vars e; ex_created := now; ex_life := remaining |} in
       ((xc_insert k e' c1, hs'), rp, lg).
-
-  (** the URI that is looked up: the override if there is one *)
-  Definition lookup_req (r : request) (ov : option (bytes * option bytes)) : request :=
-    match ov with
-    | Some (p, q) => mkReq (rq_method r) p q (rq_headers r) (rq_addr r)
-    | None => r
-    end.
 
   (** [handle_cache] for one request at time [now] (ms). *)
   Definition serveX (st : statex) (now : N) (r0 : request) : statex * replyx * list bytes :=
@@ -206,7 +210,20 @@ Section LayerX.
   | XClearAll
   | XWait (ms : N).
 
-  Definition xclear_page (r : request) (c : cachex) : cachex := xc_remove (key_p r) (xc_remove (key_pq r) c).
+  Definition xclear_uri (r : request) (c : cachex) : cachex := xc_remove (key_p r) (xc_remove (key_pq r) c).
+  Definition xhas_uri (r : request) (c : cachex) : bool :=
+    match xc_find (key_pq r) c, xc_find (key_p r) c with None, None => false | _, _ => true end.
+  (** [Collection::clear_page]: the URI as given and (after the repair) what the default redirect makes of it *)
+  Definition xclear_page (r : request) (c : cachex) : cachex :=
+    match (if fix_clear then clear_alias r else None) with
+    | Some r' => xclear_uri r' (xclear_uri r c)
+    | None => xclear_uri r c
+    end.
+  Definition xcleared (r : request) (c : cachex) : bool :=
+    xhas_uri r c || match (if fix_clear then clear_alias r else None) with
+                    | Some r' => xhas_uri r' (xclear_uri r c)
+                    | None => false
+                    end.
 
   Inductive obsx :=
   | XbReply (rp : replyx) (lg : list bytes)
@@ -218,8 +235,7 @@ Section LayerX.
     | XReq r => let '(st', rp, lg) := serveX st now r in (st', now, XbReply rp lg)
     | XClearPage r =>
         let '(c, hs) := st in
-        let had := match xc_find (key_pq r) c, xc_find (key_p r) c with None, None => false | _, _ => true end in
-        ((xclear_page r c, hs), now, XbCleared true (cache_on && had))
+        ((xclear_page r c, hs), now, XbCleared true (cache_on && xcleared r c))
     | XClearAll => let '(c, hs) := st in (([], hs), now, XbNone)
     | XWait ms => (st, now + ms, XbNone)
     end.
@@ -281,11 +297,18 @@ Definition fat_of_spec (h : hspec) (n : N) (r : request) : fat :=
 (** [handle_request] over the fixture: sanitize error page; the Prepare extension bound to the path of the
     override URI (if any) or of the request URI — extended handlers replace plain ones of the same path
     (they are added later); 404. *)
-Definition compute_x (handlers : list hspec) (xhandlers : list xhandler) (hs : list N) (r : request)
+(** the Prepare extension that [Extensions::new] binds to "/./cors_fail" *)
+Definition CORS_FAIL : bytes := B "/./cors_fail".
+Definition cors_fail_fat : fat :=
+  {| f_status := 403; f_headers := with_client_cache 3 []; f_body := B "CORS request denied"; f_spref := SP_FULL;
+     f_compress := true |}.
+
+Definition compute_x (default_ext : bool) (handlers : list hspec) (xhandlers : list xhandler) (hs : list N) (r : request)
            (ov : option (bytes * option bytes)) (ok : bool) : fatx * list N * list bytes :=
   if negb ok then (plain (error_fat (if range_part_ok r then 400 else 416) SP_NONE), hs, [])
   else
     let p := match ov with Some (p, _) => p | None => rq_path r end in
+    if default_ext && beq p CORS_FAIL then (plain cors_fail_fat, hs, []) else
     match find_xhandler_last p (firstn 8 xhandlers) O None with
     | Some (i, xh) =>
         match select_behaviour xh r with
@@ -326,9 +349,40 @@ Definition override_fix (ovp : option (bytes * bytes)) (r : request) : option (b
   | None => None
   end.
 
+(** [Cors::is_part_of_origin] against the URI the harness builds ("http://" host target) *)
+Definition same_origin (origin : bytes) (authority : bytes) : bool :=
+  match find_sub (B "://") origin with
+  | Some i => beq (firstn i origin) (B "http") && beq (skipn (i + 3) origin) authority
+  | None => false
+  end.
+(** the denial Prime of [Extensions::new] (with_disallow_cors): an Origin header that is not text or not the
+    request's own origin reroutes to "/./cors_fail".  (The preflight Prime — OPTIONS with
+    access-control-request-method — is outside the fixture: the generators never send that header.) *)
+Definition cors_override (r : request) : option (bytes * option bytes) :=
+  match header (B "origin") r with
+  | Some o =>
+      let authority := match header (B "host") r with Some h => h | None => B "localhost" end in
+      if to_str_ok o && same_origin o authority then None else Some (CORS_FAIL, None)
+  | None => None
+  end.
+(** all Primes in priority order; the last internal answer wins *)
+Definition override_x (default_ext : bool) (ovp : option (bytes * bytes)) (r0 : request) : option (bytes * option bytes) :=
+  let r := if default_ext then uri_redirect r0 else r0 in
+  match override_fix ovp r with
+  | Some o => Some o
+  | None => if default_ext then cors_override r0 else None
+  end.
+
+(** [uri_redirect_target] with the default options, whether or not the redirect extension is mounted *)
+Definition clear_alias_fix (r : request) : option request :=
+  match rev (rq_path r) with
+  | c :: _ => if (c =? 46) || (c =? 47) then Some (uri_redirect r) else None
+  | [] => None
+  end.
+
 Record configx := mkCfgX {
   cx_base : config; cx_xhandlers : list xhandler; cx_sfilter : N; cx_ovprime : option (bytes * bytes);
-  cx_repaired : bool }.
+  cx_fix_vary : bool; cx_fix_ovkey : bool; cx_fix_clear : bool }.
 
 Definition d_configx (x : xval) : option configx :=
   match d_config x, x with
@@ -337,7 +391,8 @@ Definition d_configx (x : xval) : option configx :=
       let sf := match kv_get (B "sfilter") l with Some (XN n) => n | _ => 0 end in
       let ovp := match kv_get (B "ovprime") l with Some (XL [XB n; XB p]) => Some (n, p) | _ => None end in
       match xh with
-      | Some xh' => Some (mkCfgX base xh' sf ovp (negb (kv_flag (B "v0") l false)))
+      | Some xh' => Some (mkCfgX base xh' sf ovp (negb (kv_flag (B "v0_vary") l false)) (negb (kv_flag (B "v0_ovkey") l false))
+                                 (negb (kv_flag (B "v0_clear") l false)))
       | None => None
       end
   | _, _ => None
@@ -382,12 +437,13 @@ Definition x_obsx (report : list bytes) (o : obsx) : xval :=
 
 Definition run_cfgx (cache_on : bool) (cx : configx) (ops : list opx) : list obsx :=
   let cfg := cx_base cx in
-  runX (list N) (compute_x (cf_handlers cfg) (cx_xhandlers cx)) cache_on (cf_ims cfg) (cx_repaired cx)
+  runX (list N) (compute_x (cf_default_ext cfg) (cf_handlers cfg) (cx_xhandlers cx)) cache_on (cf_ims cfg)
+       (cx_fix_vary cx) (cx_fix_ovkey cx) (cx_fix_clear cx)
        (sfilter_fix (cx_sfilter cx)) parse_ims_fix sanitize_ok_fix
        (if cf_default_ext cfg then uri_redirect else (fun r => r))
-       (fun r0 => override_fix (cx_ovprime cx) ((if cf_default_ext cfg then uri_redirect else (fun r => r)) r0))
+       (override_x (cf_default_ext cfg) (cx_ovprime cx))
        (fun _ _ => None)
-       (vary_tuple_fix (cf_vary cfg)) (vary_header_x (cf_vary cfg))
+       (vary_tuple_fix (cf_vary cfg)) (vary_header_x (cf_vary cfg)) clear_alias_fix
        ([], repeat 0 (length (cf_handlers cfg) + 8)) (cf_phase cfg) ops.
 
 Definition run_pipex (x : xval) : xval :=
